@@ -271,7 +271,7 @@ func (g *gen) ints() {
 	run, c := g.run, g.c
 	// exhaustive short strings over digits + near-miss characters
 	intAlpha := []byte("0159" + nearMiss)
-	maxLen := 3
+	maxLen := 4
 	if g.thorough() {
 		maxLen = 5
 	}
@@ -488,7 +488,7 @@ func (g *gen) floats() {
 	run, c := g.run, g.c
 	rd := func(s []byte) { run(L(Sym("float-read"), Bytes(s))) }
 	floatAlpha := []byte("019" + nearMiss)
-	maxLen := 3
+	maxLen := 4
 	if g.thorough() {
 		maxLen = 5
 	}
